@@ -830,7 +830,84 @@ def other_cases():
         yield {'family': 'http', 'mode': mode}
 
 
-RUN = {'server': run_server_case, 'server-tls': run_server_tls_case, 'server-noread': run_server_noread_case, 'server-pp': run_server_pp_case, 'client': run_client_case, 'client-idle': run_client_idle_case, 'pipe': run_pipe_case,
+def run_hog_case(case, watchdog):
+    """One peer sends a single complete line built to be expensive to parse; meanwhile a *silent* session on the same hub must
+    still get its 421 in time (these cases run one at a time)."""
+    n = case['n']
+    edge = SmtpEdge(None, sm.CaptureQueue(), hostname='edge', command_timeout=CMD_T, data_timeout=DATA_T)
+    a, b = gsocket.socketpair()
+    g = gevent.spawn(lambda: edge.handle(a, ('10.0.0.1', 1)))        # the silent session
+    t0 = time.time()
+    extra = []
+    peers = []
+    relay = None
+    try:
+        if case['side'] == 'server':
+            line = {'arg': b'NOOP x' + b' ' * n + b'x\r\n', 'mail': b'MAIL FROM:<a@b.example> X=' + b' ' * n + b'y\r\n',
+                    'tab': b'NOOP\tx' + b'\t ' * (n // 2) + b'x\r\n'}[case['line']]
+            c, d = gsocket.socketpair()
+            extra.append(gevent.spawn(lambda: edge.handle(c, ('10.0.0.2', 2))))
+            d.sendall(b'EHLO x\r\n' + line)
+            extra.append(d)
+        else:
+            def creator(address):
+                x, y = gsocket.socketpair()
+
+                def serve():
+                    try:
+                        y.sendall(b'220 peer\r\n')
+                        y.recv(4096)
+                        y.sendall(b'250-peer\r\n250-XTEST a' + b' ' * n + b'b\r\n250 8BITMIME\r\n')
+                        gevent.sleep(3600)
+                    except Exception:
+                        pass
+                peers.append((gevent.spawn(serve), x, y))
+                return x
+            relay = StaticSmtpRelay('peer.example', 25, socket_creator=creator, ehlo_as='relay.example', connect_timeout=CMD_T,
+                                    command_timeout=CMD_T, data_timeout=DATA_T)
+            extra.append(gevent.spawn(lambda: relay.attempt(c11.make_env(1, 'h'), 0)))
+        g.join(timeout=watchdog + 20)
+        elapsed = time.time() - t0
+        out = []
+        if not g.dead or elapsed > watchdog:
+            out.append(('C14:silent-session-held-up-by-another-peer:%s' % case['side'],
+                        '%r: a silent session got its 421 after %.1f s (command timeout %.2f s) while another peer\'s %d-byte line '
+                        'was being parsed' % (case, elapsed, CMD_T, n)))
+        return out, True
+    finally:
+        for x in [g] + extra:
+            if hasattr(x, 'kill'):
+                if not x.dead:
+                    x.kill(block=False)
+            else:
+                try:
+                    x.close()
+                except Exception:
+                    pass
+        if relay is not None:
+            kill_relay(relay)
+        for pg, x, y in peers:
+            if not pg.dead:
+                pg.kill(block=False)
+            for s_ in (x, y):
+                try:
+                    s_.close()
+                except Exception:
+                    pass
+        for s_ in (a, b):
+            try:
+                s_.close()
+            except Exception:
+                pass
+
+
+def hog_cases():
+    for line in ('arg', 'mail', 'tab'):
+        yield {'family': 'hog', 'side': 'server', 'line': line, 'n': 40000}
+    yield {'family': 'hog', 'side': 'client', 'n': 40000}
+
+
+RUN = {'hog': run_hog_case, 'server': run_server_case, 'server-tls': run_server_tls_case, 'server-noread': run_server_noread_case, 'server-pp': run_server_pp_case, 'client': run_client_case, 'client-idle': run_client_idle_case, 'pipe': run_pipe_case,
        'http': run_http_case, 'http-reuse': run_http_reuse_case, 'https': run_https_case}
 
 
@@ -851,6 +928,11 @@ def run_shard(ctx):
             # re-run alone with a generous watchdog before it counts
             f, nt = RUN[case['family']](case, 5.0)
         ctx.record((repr(case), i), nt, labels=['family=' + case['family']], case=case, failures=f)
+    # cases that measure what one peer can do to the *other* sessions of the process run one at a time
+    for i, case in enumerate(hog_cases()):
+        if ctx.mine(len(cases) + i):
+            f, nt = run_hog_case(case, 2.5)
+            ctx.record((repr(case), 'hog'), nt, labels=['family=hog'], case=case, failures=f)
 
 
 def replay(case):
@@ -865,6 +947,10 @@ def replay(case):
             case = dict(case, after=max(0, min(len(script) - 1, int(case['after']))))
             if case.get('mode') not in ('silent', 'midline', 'trickle', 'pipelined-partial'):
                 return None            # not a case this check generates: cannot be replayed
+        elif fam == 'hog':
+            if case.get('side') not in ('server', 'client') or (case['side'] == 'server' and case.get('line') not in ('arg', 'mail', 'tab')):
+                return None            # not a case this check generates: cannot be replayed
+            return run_hog_case(dict(case, n=max(1, min(100000, int(case.get('n', 40000))))), 2.5)[0]
         elif fam == 'client':
             if case.get('stage') not in CLIENT_STAGES or case.get('kind') not in ('smtp', 'lmtp') or case.get('mode') not in ('silent', 'trickle'):
                 return None            # not a case this check generates: cannot be replayed
